@@ -110,6 +110,19 @@ CHECKS.update({
         note=SIM_NOTE + " 'Whatever bytes' is decided for the structured alphabet only; out-of-bounds reads are observed indirectly through tagged/poisoned mailbox contents."),
 })
 
+CHECKS.update({
+    "C08": dict(
+        engine="E3 net + E4 enum", category="exploration", design_ref="DESIGN.md section 5 C08",
+        technique="bounded-exhaustive enumeration of device shapes from a grammar (sync manager / PDO layouts x EEPROM or CoE configuration x FMMU_EX x oversampling) and of small networks split over 1..=3 groups; end-to-end oracle: tagged patterns through one real tx_rx cycle compared with the simulated devices' process memory, plus structural clauses from the FMMU registers programmed into the devices",
+        text="After into_safe_op every device's windows have the byte length its PDO configuration needs, outputs written by the application arrive exactly at that device's sync manager windows and nowhere else, its input memory appears exactly in its input window, logical windows are pairwise disjoint with inputs before outputs per group, and a layout that does not fit the declared capacity is PdiTooLong.",
+        note=SIM_NOTE),
+    "C18": dict(
+        engine="E3 net + E4 enum, two build flavours", category="exploration", design_ref="DESIGN.md section 5 C18",
+        technique="exhaustive enumeration of DC support x DcSync assignments for groups of 1..=3 devices and of a boundary alphabet of periods, delays, shifts and reference times; oracle recomputes start time / offset / wait in 128-bit arithmetic from the simulator's register write log; with and without overflow checks",
+        text="Only DC-capable devices that asked for it are written; start time is the multiple of the period in (ref+delay-period, ref+delay]; cycle and activation registers match the mode; out-of-range periods/delays and a missing reference are errors; per cycle offset = t mod p and wait = (p - offset) + shift for every listed 64-bit time, without panic.",
+        note=SIM_NOTE),
+})
+
 NOT_YET = {
 }
 
